@@ -225,6 +225,22 @@ def run_pit(case, ctx):
         if isinstance(m, (nn.Conv1d, nn.Conv2d, nn.Linear)) and case['fold'] and \
                 name not in bn_after and (m.bias is None) != (e.bias is None):
             ctx.violation('export-architecture', {'sig': 'bias-presence', 'layer': name})
+    # "the original architecture" includes its wiring: with the statistics of the BatchNorms it
+    # re-creates put back, the immediate export computes the original function
+    if not prog.get('manual'):
+        try:
+            exported.eval()
+            pitlib.sync_exported_bn(pit, exported)
+            with torch.no_grad():
+                ye = exported(*xs)
+            ok_e, d_e = pitlib.close(y0, ye, 1e-4)
+            if not ok_e:
+                ctx.violation('export-architecture', {'sig': 'wiring:output', 'max_abs_diff': d_e,
+                                                      'fold_bn': case['fold'],
+                                                      'features': prog['features']})
+        except Exception as e:
+            ctx.violation('export-crash', {'sig': 'forward:' + type(e).__name__,
+                                           'exc': repr(e)[:300], 'features': prog['features']})
     nontriv = set(prog['features']) & {'bn', 'add', 'cat', 'dw', 'tcat', 'two-inputs', 'manual'}
     if nontriv:
         ctx.nontriv(('pit', case['kind'], case['prog_seed'], case['family'], case['fold'],
